@@ -827,8 +827,8 @@ theorem key_zeroed (P : List Nat) (s : Strm) (n : Nat) (c : Nat) : key P (s.zero
   | none => rfl
   | some k => exact colsum_map_zero s.ph n k
 
-theorem putOutlet_key {P Q : List Nat} {same : Bool} (hs : same = true → P = Q) {fphase : Char} {o o' : Strm} {v : Row}
-    (h : putOutlet P Q same fphase o v = .ok o') (c : Nat) : o'.pkg = o.pkg ∧ key P o'.ph c = rowKey Q v c := by
+theorem putOutlet_key {P Q : List Nat} {same : Bool} (hs : same = true → P = Q) {fphase : Char} {relabel : Bool}
+    {o o' : Strm} {v : Row} (h : putOutlet P Q same fphase relabel o v = .ok o') (c : Nat) : o'.pkg = o.pkg ∧ key P o'.ph c = rowKey Q v c := by
   unfold putOutlet at h
   split at h
   · exact putSingle_key hs h c
